@@ -51,6 +51,11 @@ pub fn run(a: &Args, rep: &mut Report) {
         "C08" => crate::p_dim::c08(a, rep),
         "C16" => crate::p_nn::c16(a, rep),
         "C17" => crate::p_nn::c17(a, rep),
+        "C10" => crate::p_pred::c10(a, rep),
+        "C11" => {
+            let out = a.out_dir.clone().unwrap_or_else(|| a.verif_dir.clone());
+            crate::p_pred::c11(a, rep, &out)
+        }
         "C05" => crate::p_total::c05(a, rep),
         "Xsurvey" => {
             crate::p_total::survey(a);
@@ -90,8 +95,23 @@ pub fn replay(a: &Args, path: &Path, rep: &mut Report) -> i32 {
     let txt = std::fs::read_to_string(path).expect("cannot read replay file");
     let v: serde_json::Value = serde_json::from_str(&txt).expect("replay file is not JSON");
     let Some(cj) = v.get("case").filter(|c| !c.is_null()) else {
-        eprintln!("BROKEN: replay file carries no case");
-        return 2;
+        // monitors whose cases are not tessellation inputs replay from the detail record
+        let handled = match a.id.as_str() {
+            "C10" | "C11" => crate::p_pred::replay_c10(&v, rep),
+            _ => false,
+        };
+        if !handled {
+            eprintln!("BROKEN: replay file carries no case");
+            return 2;
+        }
+        for v in &rep.violations {
+            println!("VIOLATION property={} replay={}", v.property, path.display());
+            println!("  [{}] {}", v.monitor, v.what);
+        }
+        if rep.violations.is_empty() {
+            println!("replay: no violation on this case");
+        }
+        return if rep.violations.is_empty() { 0 } else { 1 };
     };
     let case = Case::from_json(cj);
     println!("replaying {} on case {} (n={}, dim={}, periodic={})", a.id, case.origin, case.n(), case.dim, case.periodic);
@@ -130,6 +150,13 @@ pub fn run_one(id: &str, c: &Case, rep: &mut Report) {
         "C16" => crate::p_nn::one_c16(id, c, rep),
         "C17" => crate::p_nn::one_c17(id, c, rep),
         "C05" => crate::p_total::one_c05(id, c, rep),
+        "C11" => {
+            // a tessellation on which two back ends differed: this build's digest and exact decisions
+            if let Ok(b) = build_observed(c, 4000, 0) {
+                crate::p_exact::check_exact_log(id, c, &b.trace, rep);
+                println!("  back end {}: digest {} exact calls {}", crate::p_pred::backend_name(), digest_voronoi(&b.v).hex(), b.trace.exact_count);
+            }
+        }
         "C07" => crate::p_struct::one_c07(id, c, rep),
         "C12" => crate::p_struct::one_c12(id, c, rep),
         "C13" => crate::p_struct::one_c13(id, c, rep),
